@@ -129,6 +129,8 @@ func (u hUnit) str() string {
 		return "ar|" + u.rows.str()
 	case "rot":
 		return "rot|" + hx([]byte(u.file))
+	case "rst":
+		return "rst|" + hx([]byte(u.file))
 	case "gt":
 		return fmt.Sprintf("gt|%s|%d", hx(u.sid), u.gno)
 	case "pg":
@@ -534,7 +536,12 @@ func genStmt(r *RNG, kw string, o histOpts, ts uint32) *hStmt {
 		}
 		if r.Chance(1, 2) {
 			cat := r.Bytes(r.Intn(5))
-			s.vars = append(s.vars, "6."+hx(append([]byte{byte(len(cat))}, cat...)))
+			if r.Chance(1, 3) {
+				// the old NUL-terminated Q_CATALOG (code 2, MySQL 5.0.0-5.0.3) in the place of code 6
+				s.vars = append(s.vars, "2."+hx(append(append([]byte{byte(len(cat))}, cat...), 0)))
+			} else {
+				s.vars = append(s.vars, "6."+hx(append([]byte{byte(len(cat))}, cat...)))
+			}
 		}
 		if r.Chance(1, 2) {
 			s.vars = append(s.vars, "3."+hx(r.Bytes(4)))
@@ -598,7 +605,8 @@ func genHistory(r *RNG, o histOpts, cfg string) *hist {
 			h.units = append(h.units, hUnit{kind: "dml", stmt: genStmt(r, kw, o, ts)})
 		case k < 10 && o.files:
 			fileNo++
-			h.units = append(h.units, hUnit{kind: "rot", file: fmt.Sprintf("bin.%06d", fileNo)})
+			// a real ROTATE event, or a master restart (STOP event, next file announced by an artificial rotate only)
+			h.units = append(h.units, hUnit{kind: r.Pickstr("rot", "rot", "rst"), file: fmt.Sprintf("bin.%06d", fileNo)})
 		case o.ignorable:
 			switch r.Intn(6) {
 			case 0:
